@@ -331,7 +331,7 @@ class Ctx:
                     "C19", "C19.clear_fresh.cms", ENGINE, lambda: rp(who=who), {"kind": self.kind})
 
 
-def profiles(tier, seed):
+def profiles(tier, seed, light=False):
     P = []
     far = dict(cellmax=100000, cellmin=-100000, totmax=100000, totmin=-100000)
     base = dict(far, keys=["a", "b", "c"], amts=[1, 2], whos=["A", "B"], kind="cms", mode="min", maxtrue=3, maxdepth=4)
@@ -366,6 +366,8 @@ def profiles(tier, seed):
         P.append(dict(base, W=1, D=1, H=2, ntables=1, kind="st", thr=3, whos=["A"], amts=[1, 3], maxdepth=7, maxtrue=6))
         for (W, D, H) in [(2, 2, 5), (1, 1, 2), (3, 2, 7)]:
             P.append(dict({**base, **tiny}, W=W, D=D, H=H, ntables=20, maxdepth=4))
+    if light and tier == "quick":
+        P = [dict(p, ntables=min(p["ntables"], 2), maxdepth=min(p["maxdepth"], 4)) for p in P if not p.get("patch_limits")]
     for i, p in enumerate(P):
         p["tables"] = gen_tables(p["keys"], p["W"], p["D"], p["H"], p["ntables"], seed * 1000 + 500 + i, p.get("exhaustive", False))
     return P
@@ -385,7 +387,7 @@ INVPROP = {"TypeOK": "C16", "Bounds": "C02", "TotalMeaning": "C14", "HHConsisten
 def run(focus, tier, seed):
     total = Tally(focus)
     jobs = []
-    for p in profiles(tier, seed):
+    for p in profiles(tier, seed, focus in ("C05", "C14", "C19")):
         if focus in FOCUS_FILTER and not FOCUS_FILTER[focus](p):
             continue
         tabs = p["tables"]
